@@ -123,8 +123,86 @@ func VerifC13PathOrder() {
 		for k := 0; k < n && k < len(objs); k++ {
 			name := strings.NewReplacer("/", "-", ".", "-").Replace(want[k])
 			verifrt.Assert(objs[k].GetName() == name, "C13/objects-in-path-order")
-			verifrt.Assert(objs[k].GetLabels()[manifests.PackageLabel] == "demo" || verifrt.Symbolic(), "C13/package-labels-added")
+			verifrt.Assert(objs[k].GetLabels()[manifests.PackageLabel] == "demo", "C13/package-labels-added")
 		}
 	}
 	verifrt.Reach("ordered")
+}
+
+// VerifC13Documents: the real YAML splitting and decoding. Files hold one or several documents (some empty, some
+// carrying labels of their own, including Package Operator's own label keys); every non-empty document appears
+// exactly once, in path-then-document order, with the package labels of *this* package and the user's labels kept.
+func VerifC13Documents() {
+	universe := []string{"b.yaml", "a/b.yaml", "a.yml"}
+	n := verifrt.IntRange("nFiles", 1, verifrt.Bound("maxFiles", 2))
+	variant := make([]int, n)
+	for k := 0; k < n; k++ {
+		variant[k] = verifrt.IntRange("file"+strconv.Itoa(k)+".shape", 0, 5)
+	}
+	doc := func(name, labels string) string {
+		s := "apiVersion: v1\nkind: ConfigMap\nmetadata:\n  name: " + name + "\n"
+		if labels != "" {
+			s += "  labels:\n" + labels
+		}
+		return s
+	}
+	type want struct {
+		name  string
+		user  string // value of the user's own label "app", if any
+		nUser int
+	}
+	for iter := 0; iter < verifrt.Repeat(); iter++ {
+		files := packagetypes.Files{"_helpers.yaml": []byte("ignored: true\n"), "notes.txt": []byte("x")}
+		expect := map[string][]want{}
+		for k := 0; k < n; k++ {
+			p := universe[k]
+			id := "f" + strconv.Itoa(k)
+			switch variant[k] {
+			case 0: // one document
+				files[p] = []byte(doc(id+"-0", ""))
+				expect[p] = []want{{name: id + "-0"}}
+			case 1: // two documents
+				files[p] = []byte(doc(id+"-0", "") + "---\n" + doc(id+"-1", ""))
+				expect[p] = []want{{name: id + "-0"}, {name: id + "-1"}}
+			case 2: // leading separator, empty document in the middle, trailing separator
+				files[p] = []byte("---\n" + doc(id+"-0", "") + "---\n\n---\n" + doc(id+"-1", "") + "---\n")
+				expect[p] = []want{{name: id + "-0"}, {name: id + "-1"}}
+			case 3: // user label kept
+				files[p] = []byte(doc(id+"-0", "    app: web\n"))
+				expect[p] = []want{{name: id + "-0", user: "web", nUser: 1}}
+			case 4: // the document claims to belong to another package / instance
+				files[p] = []byte(doc(id+"-0", "    "+manifests.PackageLabel+": other\n    "+manifests.PackageInstanceLabel+": other-instance\n    app: db\n") +
+					"---\n" + doc(id+"-1", ""))
+				expect[p] = []want{{name: id + "-0", user: "db", nUser: 1}, {name: id + "-1"}}
+			case 5: // only comments and separators: no object
+				files[p] = []byte("# nothing here\n---\n# still nothing\n")
+			}
+		}
+		man := &manifests.PackageManifest{}
+		man.Name = "demo"
+		man.Spec.Phases = []manifests.PackageManifestPhase{{Name: "deploy"}}
+		tmplCtx := packagetypes.PackageRenderContext{}
+		tmplCtx.Package.Name = "demo-instance"
+		objs, err := RenderObjectsWithFilter(context.Background(), &packagetypes.Package{Manifest: man, Files: files}, tmplCtx, nil)
+		verifrt.Assert(err == nil, "C13/valid-documents-render")
+		// expected order: paths ascending with '/' before every other character, then document order
+		paths := append([]string{}, universe[:n]...)
+		for a := 1; a < len(paths); a++ {
+			for b := a; b > 0 && strings.ReplaceAll(paths[b], "/", "\x00") < strings.ReplaceAll(paths[b-1], "/", "\x00"); b-- {
+				paths[b], paths[b-1] = paths[b-1], paths[b]
+			}
+		}
+		var all []want
+		for _, p := range paths {
+			all = append(all, expect[p]...)
+		}
+		verifrt.Assert(len(objs) == len(all), "C13/every-document-exactly-once")
+		for k := 0; k < len(all) && k < len(objs); k++ {
+			verifrt.Assert(objs[k].GetName() == all[k].name, "C13/objects-in-path-then-document-order")
+			l := objs[k].GetLabels()
+			verifrt.Assert(l[manifests.PackageLabel] == "demo" && l[manifests.PackageInstanceLabel] == "demo-instance", "C13/package-labels-added")
+			verifrt.Assert(len(l) == 2+all[k].nUser && (all[k].nUser == 0 || l["app"] == all[k].user), "C13/user-labels-kept")
+		}
+	}
+	verifrt.Reach("documents")
 }
